@@ -365,6 +365,12 @@ def schema_trees(tier, rng=None):
                                                             ("f", fixed("F3", 2)), ("again", ref("a.L3"))])),
                                          ("l3b", ref("a.L3")), ("e2", ref("a.E3"))]))
     add("ns_b_null_b", rec("a.b.M1", [("m2", rec("M2", [("m3", enum("a.b.M3", ["Q"])), ("m4", rec("a.M4", [("x", ref("a.b.M3"))]))]))]))
+    # unknown (custom) logical types on every kind of node, named ones included: they are kept, in the graph and in the JSON
+    lt_rec = rec("a.LR", [("e", dict(enum("a.LE", ["S", "T"]), lt="custom-enum")), ("f", fixed("a.LF", 3, "custom-fixed")),
+                          ("r", dict(rec("a.LI", [("x", prim("int"))]), lt="custom-inner")), ("a", dict(arr(prim("int", "custom-int")), lt="custom-array")),
+                          ("again", ref("a.LE"))])
+    lt_rec["lt"] = "custom-record"
+    add("custom_logical_types", lt_rec)
     # a type used twice AFTER a sibling that allocates nodes of its own: when its definition is moved to the later use, the
     # first (forward) reference is neither the first child of its parent nor held by the most recently reserved node
     add("fwd_after_sibling", rec("a.T", [("a", arr(prim("int"))), ("b", enum("a.E", ["S", "T"])), ("c", ref("a.E"))]))
